@@ -931,7 +931,9 @@ where
                                 as u64,
                         ))
                         .await;
-                    backoff *= 2;
+                    // capped for the same reason as in ensure_token_or_cheat: unbounded
+                    // doubling overflows Duration and aborts
+                    backoff = cmp::min(backoff * 2, Duration::from_millis(1000));
                     // after printing this line, redo-log will recurse into t,
                     // whether it's us building it, or someone else.
                     logs::meta(
